@@ -409,13 +409,17 @@ Definition status_eqb (a b:status) : bool :=
   | _, _ => false
   end.
 
-(** decidable form, evaluated by the replay driver on every recorded integrator call *)
-Definition use_okb (u:iuse) : bool :=
+(** decidable forms of the integrator contract, evaluated by the replay driver on every recorded integrator call.
+    [use_coreb]: times of the answer are ordered and the status clauses hold; [use_monob]: the advanced time does not go back
+    (true of AbstractIntegratorRep; CPodesIntegratorRep integrates past a pending report time and interpolates back, see C19) *)
+Definition use_coreb (u:iuse) : bool :=
   let a := u_ans u in
-  qle (u_tcur u) (a_t a) && qle (a_t a) (a_tadv a) && qle (u_tadv u) (a_tadv a) &&
+  qle (u_tcur u) (a_t a) && qle (a_t a) (a_tadv a) &&
   (if status_eqb (a_status a) ReachedScheduledEvent
    then ieq (Some (a_t a)) (u_event u) && qeq (a_tadv a) (a_t a) && ilt (u_event u) (u_report u) else true) &&
   (if status_eqb (a_status a) ReachedReportTime then ile (Some (a_t a)) (u_report u) else true).
+Definition use_monob (u:iuse) : bool := qle (u_tadv u) (a_tadv (u_ans u)).
+Definition use_okb (u:iuse) : bool := use_coreb u && use_monob u.
 
 Arguments h_id {S} _. Arguments h_next {S} _ _ _. Arguments h_act {S} _ _ _.
 Arguments th_id {S} _. Arguments th_act {S} _ _ _.
